@@ -412,7 +412,7 @@ pub fn all() -> Vec<Witness> {
         w!("D22", &["C07"], "NULL-only rows are not counted by LIMIT", d22),
         w!("D23", &["C08"], "aggregate DISTINCT without HAVING keeps duplicates", d23),
         w!("D60", &["C11"], "REAL keys 0.0 / -0.0: follow mode and batch mode show different representatives of one group", d60),
-        w!("D61", &["C11"], "follow mode, aggregate over a join: a line with several partners shows one table per partner, concatenated", d61),
+        w!("D61", &["C11"], "follow mode, aggregate over a join: a line with several partners showed one table per partner, concatenated (fixed 7277b4c)", d61),
         w!("D24", &["C08", "C11"], "aggregate DISTINCT+HAVING empties the table on refresh", d24),
         w!("D25", &["C09"], "TIMESTAMP text in a DST gap / overlap of the local zone panics (unwrap of LocalResult)", d25),
         w!("D53", &["C03"], "IN / NOT IN do not compare their members like = (timestamp text not parsed, other types silently false)", d53),
